@@ -63,8 +63,35 @@ PoolC04 == << FnS(<<"s","t","r","i","n","g">>, <<>>), FnS(<<"s","t","r","i","n",
                  FnS(<<"b","o","o","l","e","a","n">>, <<AxNode("preceding-sibling")>>),
                  FnS(<<"n","u","m","b","e","r">>, <<AxNode("ancestor")>>), Bin("eq", AxNode("preceding"), Lit(<<"x">>)),
                  FnS(<<"s","t","r","i","n","g">>, <<Abs(<<>>)>>), FnS(<<"n","o","t">>, <<FnS(<<"n","o","t">>, <<AxNode("child")>>)>>) >>
-ASSUME EmitOn => EmitPool("C01.steps", Pool) /\ EmitPool("C04.nodes", PoolC04)
+\* absolute paths start at the root wherever they occur: inside predicates and function arguments,
+\* from every start node; multi-step and abbreviated forms
+AllA == Abs(<<DoS, Step("child", T_name("", <<"a">>))>>)
+CountE(e) == Call(<<"c","o","u","n","t">>, <<e>>)
+PoolAbs == << Abs(<<>>), AllA, Abs(<<Step("child", T_any)>>), CountE(Abs(<<DoS, Step("child", T_node)>>)), CountE(Abs(<<Step("descendant", T_any)>>)),
+              Rel(<<StepP("self", T_node, <<AllA>>)>>), Rel(<<StepP("self", T_node, <<Abs(<<Step("child", T_name("", <<"b">>))>>)>>)>>),
+              Rel(<<StepP("descendant-or-self", T_node, <<Bin("eq", Rel(<<Self>>), Abs(<<DoS, Step("child", T_text)>>))>>)>>),
+              Rel(<<StepP("ancestor-or-self", T_node, <<Bin("eq", CountE(Abs(<<Step("child", T_node)>>)), CountE(Rel(<<Step("child", T_node)>>)))>>)>>),
+              Call(<<"s","t","r","i","n","g">>, <<Abs(<<Step("child", T_any), Step("child", T_node)>>)>>),
+              Bin("union", Rel(<<Step("child", T_node)>>), Abs(<<Step("child", T_node)>>)),
+              Rel(<<Step("parent", T_node), Step("child", T_node)>>), Rel(<<Step("ancestor", T_any), Step("attribute", T_any)>>),
+              Rel(<<Step("preceding-sibling", T_node), Step("following-sibling", T_node)>>), Rel(<<DoS, Step("attribute", T_any)>>),
+              Rel(<<Step("child", T_any), DoS, Step("child", T_text)>>), Abs(<<DoS, Step("child", T_any), Step("parent", T_node), Step("namespace", T_any)>>),
+              Rel(<<Step("following", T_node), Step("preceding", T_node)>>), Abs(<<DoS, Step("self", T_nsany("p"))>>),
+              Filter(AllA, <<>>, <<Step("parent", T_node)>>), Rel(<<Step("attribute", T_any), Step("parent", T_node), Step("attribute", T_any)>>),
+              Rel(<<Step("namespace", T_any), Step("parent", T_any)>>), Rel(<<Step("attribute", T_any), Step("following", T_node)>>),
+              Rel(<<Step("namespace", T_any), Step("preceding", T_node)>>) >>
+\* every two-step path: the second step starts from whatever the first selected (attributes and
+\* namespace nodes included), and its name test is judged against ITS axis' principal node type
+Tests1 == {T_node, T_any}
+Tests2 == {T_any, T_node, T_name("", <<"a">>)}
+Pool2 == SetToSeq({Rel(<<Step(a1, t1), Step(a2, t2)>>) : <<a1, t1, a2, t2>> \in
+            {x \in AxisNames \X Tests1 \X AxisNames \X Tests2 : InScope(x[1], x[2]) /\ InScope(x[3], x[4])}})
+\* ... and the same inside a predicate
+PoolPredSelf == SetToSeq({Abs(<<DoS, StepP(a1, T_any, <<Rel(<<Step(a2, t2)>>)>>)>>) : <<a1, a2, t2>> \in
+            {"attribute", "child", "namespace"} \X {"self", "parent", "ancestor-or-self", "descendant-or-self"} \X Tests2})
+ASSUME EmitOn => EmitPool("C01.steps", Pool) /\ EmitPool("C04.nodes", PoolC04) /\ EmitPool("C01.abs", PoolAbs) /\ EmitPool("C01.two", Pool2 \o PoolPredSelf)
 Emit == (EmitOn /\ Complete) =>
   IF EmitFam = "C04" THEN EmitLine("C04.nodes", doc, Env, AllCCases(doc, Env, PoolC04))
-  ELSE EmitLine("C01.steps", doc, Env, AllCCases(doc, Env, Pool))
+  ELSE IF EmitFam = "C01two" THEN EmitLine("C01.two", doc, Env, AllCCases(doc, Env, Pool2 \o PoolPredSelf))
+  ELSE EmitLine("C01.steps", doc, Env, AllCCases(doc, Env, Pool)) /\ EmitLine("C01.abs", doc, Env, AllCCases(doc, Env, PoolAbs))
 =============================================================================
